@@ -165,6 +165,12 @@ TPopAll ==
           /\ Report(bads, [exp |-> c.parsed, got |-> ev.popped])
     /\ UNCHANGED <<run, cmp, consumed, souts, famid, famref, armed, held>>
 
+\* set_payload_max_size on a live connection: the new limit applies to every header block completed from
+\* now on (the machine reads c.limit when the blank line is parsed)
+TSetLimit == /\ Ev("setlimit")
+             /\ c' = [c EXCEPT !.limit = Rec[l].limit]
+             /\ UNCHANGED <<run, cmp, consumed, souts, obs, famid, famref, armed, held, nbad>>
+
 \* clear_write_buffer: everything pending is discarded, nothing is written
 TClear == /\ Ev("clear")
           /\ c' = ClearWrite(c)
@@ -197,7 +203,7 @@ TC11 == /\ Ev("c11cmp")
            IN Report(IF same THEN {} ELSE {"c11rel"}, [main |-> m, fresh |-> f])
         /\ UNCHANGED <<c, run, cmp, consumed, souts, obs, famid, famref, armed, held>>
 
-Next == TNew \/ TRead \/ TEnq \/ TWrite \/ TClear \/ TPopAll \/ TEnd \/ TC11
+Next == TNew \/ TRead \/ TEnq \/ TWrite \/ TClear \/ TSetLimit \/ TPopAll \/ TEnd \/ TC11
 Spec == Init /\ [][Next]_vars
 
 \* every state of every validated trace satisfies the structural invariant of the machine
